@@ -169,6 +169,24 @@ def Svc.Respects (s : Svc) : List Op → Prop
   | [] => True
   | op :: ops => s.contractOk op ∧ (s.step op).Respects ops
 
+/-! ## The process-wide limit and the per-thread counters (accept/mod.rs)
+
+`MAX_CONN` is ONE atomic for the whole process; `max_concurrent_tls_connect(n)` stores into it from
+whatever thread it is called on.  `MAX_CONN_COUNTER` is a thread-local `Counter` created on a thread's
+first use (its first `new_service`) with the value `MAX_CONN` has at that moment, and keeps that
+capacity for the life of the thread. -/
+
+structure Proc where
+  /-- `MAX_CONN` -/
+  maxConn : Nat := Src.tlsDefaultMaxConn
+deriving Repr
+
+/-- `max_concurrent_tls_connect(n)`, from any thread -/
+def Proc.setMax (_p : Proc) (n : Nat) : Proc := { maxConn := n }
+
+/-- the gate of a thread whose counter is created now (first `new_service` on that thread) -/
+def Proc.newThread (p : Proc) (tmo : Nat) : Svc := { cap := p.maxConn, tmo := tmo }
+
 /-! ## Acceptor factories: the configuration surface (`Acceptor::{new, set_handshake_timeout, clone}`,
 `ServiceFactory::new_service`)
 
